@@ -1,15 +1,17 @@
 (* Corr/C15.v — orientation words and angle parsing *)
-Require Import Model.Base Model.Orient Model.Dcs Corr.Common Oracle.Spec.
+Require Import Model.Base Model.Orient Model.Dcs Corr.Common Oracle.Spec Corr.Draw.
 Open Scope Z_scope.
 
 Inductive ocase :=
 | OWord (o : orient) (w : list oop)
 | OAngles (l : list Z)
-| OAngleSum (lo hi : Z).
+| OAngleSum (lo hi : Z)
+| OProg (pc : pcase).          (* a Display whose orientation is extended by words at run time, and drawn on *)
 Inductive oout :=
 | OWordOut (r : res) (rot : Z) (m : bool) (byte : Z)
 | OAnglesOut (l : list (option (Z * Z)))
-| OSumOut (s : Z).
+| OSumOut (s : Z)
+| OProgOut (p : pout).
 
 Definition rot_id (r : rot) : Z := match r with D0 => 0 | D90 => 1 | D180 => 2 | D270 => 3 end.
 Definition opt_eqb (a b : option (Z * Z)) : bool :=
@@ -49,6 +51,7 @@ Definition model_oout (c : ocase) : oout :=
       end
   | OAngles l => OAnglesOut (map angle_model l)
   | OAngleSum lo hi => OSumOut (angle_sum angle_model lo hi)
+  | OProg pc => match run_pcase pc with Some p => OProgOut p | None => OSumOut (-1) end
   end.
 
 Definition oout_eqb (a b : oout) : bool :=
@@ -56,6 +59,7 @@ Definition oout_eqb (a b : oout) : bool :=
   | OWordOut r1 x1 m1 b1, OWordOut r2 x2 m2 b2 => res_beq r1 r2 && (x1 =? x2) && Bool.eqb m1 m2 && (b1 =? b2)
   | OAnglesOut l1, OAnglesOut l2 => list_eqb opt_eqb l1 l2
   | OSumOut s1, OSumOut s2 => s1 =? s2
+  | OProgOut _, OProgOut _ => true       (* compared by corr_ops in check *)
   | _, _ => false
   end.
 
@@ -76,8 +80,17 @@ Definition oracle (c : ocase) (impl : oout) : bool :=
       end
   | OAngles l, OAnglesOut out => list_eqb opt_eqb (map spec_angle l) out
   | OAngleSum lo hi, OSumOut s => s =? angle_sum spec_angle lo hi
+  | OProg pc, OProgOut p =>
+      (* the picture decoded from the bus is the one the composed orientation must show, nothing lands outside the
+         visible window, and the display reports the composed orientation and its size *)
+      let v := judge pc p in
+      v_results_ok v && v_no_anomaly v && v_writes v && v_confined v && v_obs v && v_madctl v
   | _, _ => false
   end.
 
-Definition check (x : ocase * oout) : Z := code (oout_eqb (model_oout (fst x)) (snd x)) (oracle (fst x) (snd x)).
+Definition check (x : ocase * oout) : Z :=
+  match x with
+  | (OProg pc, OProgOut p) => code (corr_ops pc p) (oracle (fst x) (snd x))
+  | _ => code (oout_eqb (model_oout (fst x)) (snd x)) (oracle (fst x) (snd x))
+  end.
 Definition model_out := model_oout.
